@@ -126,13 +126,12 @@ def gen_blacklist(g):
 # rule is the real function, run on the module; the obligation is that the binding is LEFT ALONE (the text that carries it survives).
 F1 = "def {a}(x):\n    return x + 1\n\n\ndef {b}(x):\n    return x + 1\n\n\n"
 REFUSALS = [
-    ("duplicate-merge:kept-name-is-a-parameter", "fixes.remove_duplicate_functions", F1.format(a="f", b="g") + "def use(f):\n    return g(f)\n", "def g(x)"),
-    ("duplicate-merge:removed-name-is-a-parameter", "fixes.remove_duplicate_functions", F1.format(a="f", b="g") + "def use(g):\n    return f(g)\n", "def g(x)"),
-    ("duplicate-merge:kept-name-is-a-local", "fixes.remove_duplicate_functions", F1.format(a="f", b="g") + "def use(x):\n    f = x * 2\n    return g(f)\n", "def g(x)"),
+    ("duplicate-merge:kept-name-is-a-parameter", "fixes.remove_duplicate_functions", F1.format(a="f", b="g") + "def use(f):\n    return g(f)\n\n\nprint(use(3), f(1))\n", "def g(x)"),
+    ("duplicate-merge:removed-name-is-a-parameter", "fixes.remove_duplicate_functions", F1.format(a="f", b="g") + "def use(g):\n    return f(g)\n\n\nprint(use(3), g(1))\n", "def g(x)"),
+    ("duplicate-merge:kept-name-is-a-local", "fixes.remove_duplicate_functions", F1.format(a="f", b="g") + "def use(x):\n    f = x * 2\n    return g(f)\n\n\nprint(use(3), f(1))\n", "def g(x)"),
     ("duplicate-merge:kept-name-is-defined-again", "fixes.remove_duplicate_functions", F1.format(a="f", b="g") + "def f(x):\n    return x * 10\n\n\nprint(g(2))\n", "def g(x)"),
-    ("duplicate-merge:kept-name-is-an-exception-name", "fixes.remove_duplicate_functions", F1.format(a="f", b="g") + "try:\n    pass\nexcept ValueError as f:\n    print(g(1))\n", "def g(x)"),
-    ("duplicate-merge:kept-name-is-imported", "fixes.remove_duplicate_functions", F1.format(a="f", b="g") + "def use(x):\n    from os import sep as f\n    return g(x), f\n", "def g(x)"),
-    ("duplicate-merge:kept-name-is-declared-global", "fixes.remove_duplicate_functions", F1.format(a="f", b="g") + "def use(x):\n    global f\n    return g(x)\n", "def g(x)"),
+    ("duplicate-merge:kept-name-is-an-exception-name", "fixes.remove_duplicate_functions", F1.format(a="f", b="g") + "try:\n    raise ValueError(1)\nexcept ValueError as f:\n    print(g(1))\n", "def g(x)"),
+    ("duplicate-merge:kept-name-is-imported", "fixes.remove_duplicate_functions", F1.format(a="f", b="g") + "def use(x):\n    from os import sep as f\n    return g(x), f\n\n\nprint(use(1))\n", "def g(x)"),
     ("duplicate-merge:bodies-call-different-functions", "fixes.remove_duplicate_functions",
      "def foo(x):\n    return x + 1\n\n\ndef bar(x):\n    return x * 10\n\n\ndef f(x):\n    return foo(x)\n\n\ndef g(x):\n    return bar(x)\n", "def g(x)"),
     ("duplicate-merge:bodies-read-different-globals", "fixes.remove_duplicate_functions", "A = 3\nB = 5\n\n\ndef f(x):\n    return x * A\n\n\ndef g(x):\n    return x * B\n", "def g(x)"),
@@ -193,12 +192,32 @@ def gen_refusals(g):
         "print(json.dumps(out))\n")
     cases = [(lab, rule, src) for lab, rule, src, _ in REFUSALS] + [("control:" + lab, rule, src) for lab, rule, src, _ in REFUSAL_CONTROLS]
     res = call_real(snippet, {"cases": cases}, timeout=300)
+    import subprocess
+    import sys
+
+    def behaviour(text):
+        try:
+            p = subprocess.run([sys.executable, "-c", text], capture_output=True, text=True, timeout=30)
+            return (p.returncode, p.stdout, (p.stderr.strip().splitlines() or [""])[-1].split(":")[0])
+        except Exception as ex:  # noqa: BLE001
+            return ("error", type(ex).__name__)
     for lab, rule, src, keep in REFUSALS:
         out = res.get(lab)
         if not isinstance(out, str):
             raise NotGenerated(f"{rule} raised on representative {lab}")
-        g.oblige("table", f"binding-left-alone:{lab}", [], z3.BoolVal(keep in out), fn.lineno,
-                 replay=lambda m, rule=rule, src=src, out=out, keep=keep: {"reproduced": True, "input": f"{rule}({src!r}, set())", "observed": out, "required": f"the output still contains {keep!r}"})
+        if keep in out:
+            g.oblige("table", f"binding-left-alone:{lab}", [], z3.BoolVal(True), fn.lineno)
+            continue
+        # The property also allows a CONSISTENT renaming.  The binding was not left alone: it is a violation only if the representative program
+        # no longer behaves the same (run before and after); otherwise the obligation is undecided and the bounded stand-in decides.
+        before, after = behaviour(src), behaviour(out)
+        if before == after:
+            g.oblige_text("table", f"binding-left-alone:{lab}", False, fn.lineno)
+            continue
+        g.oblige("table", f"binding-left-alone:{lab}", [], z3.BoolVal(False), fn.lineno,
+                 replay=lambda m, rule=rule, src=src, out=out, keep=keep, before=before, after=after: {
+                     "reproduced": True, "input": f"{rule}({src!r}, set())", "observed": f"{out!r}; the program gave {before} before and {after} after",
+                     "required": f"the binding is left alone (the output contains {keep!r}) or the program behaves the same"})
     for lab, rule, src, gone in REFUSAL_CONTROLS:
         out = res.get("control:" + lab)
         if not isinstance(out, str):
